@@ -166,6 +166,10 @@ def rule_agree_b(ctx):
     nq = 2 if ctx.tier == "quick" else 3
     m = agree.run_agree(ctx, "AGREE-B", "builder", nq)
     facts = ctx.facts()
+    # the simulation treats the type as one token that is written raw and found again by splitting at the first '/':
+    # true only if the type predicate admits no separator and nothing that needs escaping
+    from .common import raw_type_alphabet_obligation
+    raw_type_alphabet_obligation(ctx, facts, "AGREE-B")
     # ---- acceptance invariance: guards on fields the parser normalises (namespace, subpath)
     normalised = [fld for fld, sinks in m.pm["sinks"].items() if any(s["via"] and not s["decoded"] for s in sinks)]
     ctx.ob("AGREE-B", "fields normalised by the parser (segment decoders): namespace, subpath", sorted(normalised) == ["namespace", "subpath"], fn=m.pm["key"], detail=str(normalised))
